@@ -47,6 +47,11 @@ type L2Config struct {
 	// descheduled goroutine looks like): the placement of that pause is part of "all placements of stalls and closes"
 	DiscDelayConn int `json:"disc_delay_conn"`
 	DiscDelayMS   int `json:"disc_delay_ms"`
+	// the main loop of connection HoldConn is held for HoldMS inside the FIRST handler call named HoldName (a slow
+	// handler / a descheduled goroutine): what arrives meanwhile queues up behind it
+	HoldConn int    `json:"hold_conn"`
+	HoldName string `json:"hold_name"`
+	HoldMS   int    `json:"hold_ms"`
 }
 
 type Event struct {
@@ -190,12 +195,16 @@ func (l *L2) Close() {
 
 type obsHandler struct {
 	hw.Handler
-	id int
-	l  *L2
+	id   int
+	l    *L2
+	held atomic.Bool
 }
 
 func (o *obsHandler) call(name string, f func() error) error {
 	o.l.event(o.id, "hbegin", name, nil) // the main loop has taken the message off the queue
+	if o.l.cfg.HoldMS > 0 && o.l.cfg.HoldConn == o.id && o.l.cfg.HoldName == name && o.held.CompareAndSwap(false, true) {
+		time.Sleep(time.Duration(o.l.cfg.HoldMS) * time.Millisecond)
+	}
 	err := f()
 	o.l.event(o.id, "handle", name, err)
 	return err
